@@ -6,7 +6,7 @@ PROPS["C02"] = {
     "assumptions": [
         "all 58 built-in filesystem extractors of list.All except java/pomxmlnet (needs network) are exercised; required paths come from probing FileRequired with production paths and the names under each extractor's testdata",
         "seeds: every fixture under the extractor's testdata up to 256 KiB (larger ones are not used), minus the fixture files emptied in this sandbox, plus a few tiny literal documents; inputs are capped at 256 KiB",
-        "'bounded' is decided against a budget of 20 s wall time and 1 GiB allocated bytes per Extract call; an overrun only counts when it repeats in an isolated process",
+        "'bounded' is decided against a budget of 20 s and 1 GiB allocated bytes per Extract call; an overrun only counts when it repeats in an isolated process, where the time budget counts as exceeded when the call uses more than 20 s of CPU time, does not return within 80 s, or takes longer than 20 s while using less than a tenth of that as CPU time (so that a busy machine cannot fake an overrun)",
         "a panic is attributed to (extractor, innermost function of github.com/google/osv-scalibr on the panic stack); known findings are excluded by that call site only",
     ],
     "engine": "rapid",
